@@ -148,6 +148,22 @@ void trace_plasticity() {
   }
 }
 
+#ifdef C28_PLATE_STIFFNESS
+// separate program: the PLATE specialisation of the stiffness computation (hypotheses for which the PLATE
+// convention is documented). Kept apart so that its absence does not hide everything else.
+template <MH::Hypothesis H>
+void trace_plate() {
+  trace_stiff<H, StiffnessTensorAlterationCharacteristic::UNALTERED, OAC::PLATE>();
+  trace_stiff<H, StiffnessTensorAlterationCharacteristic::ALTERED, OAC::PLATE>();
+}
+int main() {
+  trace_plate<MH::PLANESTRESS>();
+  trace_plate<MH::PLANESTRAIN>();
+  trace_plate<MH::GENERALISEDPLANESTRAIN>();
+  trace_plate<MH::TRIDIMENSIONAL>();
+  return 0;
+}
+#else
 int main() {
   trace_hyp<MH::AXISYMMETRICALGENERALISEDPLANESTRAIN>();
   trace_hyp<MH::AXISYMMETRICALGENERALISEDPLANESTRESS>();
@@ -161,3 +177,4 @@ int main() {
   trace_plasticity<3u>();
   return 0;
 }
+#endif
